@@ -8,6 +8,107 @@ from .heap import Native, PList
 WS = " \t\n\r\x0b\x0c"
 
 
+class CStr:
+    """string of concrete length whose character codes may be symbolic
+    (result of decoding a fixed-size buffer); keeps per-character structure so
+    that strip / encode / int() stay exact"""
+    def __init__(self, codes):
+        self.codes = list(codes)
+
+    def to_z3(self):
+        parts = [z3.StringVal(chr(c)) if isinstance(c, int) else z3.StrFromCode(c) for c in self.codes]
+        if not parts:
+            return z3.StringVal("")
+        return z3.Concat(*parts) if len(parts) > 1 else parts[0]
+
+    def __repr__(self):
+        return f"CStr({self.codes})"
+
+
+def cstr_of(s):
+    if isinstance(s, CStr):
+        return s
+    if isinstance(s, str):
+        return CStr([ord(c) for c in s])
+    return None
+
+
+def code_in(I, c, chars):
+    if isinstance(c, int):
+        return chr(c) in chars
+    return simp(z3.Or([c == ord(ch) for ch in chars]))
+
+
+def cstr_method(I, s, name):
+    def N(fn):
+        return Native("str." + name, fn)
+    if name in ("strip", "lstrip", "rstrip"):
+        def f(I_, a, k):
+            chars = a[0] if a and a[0] is not None else WS
+            if not isinstance(chars, str):
+                raise Unsupported("strip with symbolic character set")
+            codes = list(s.codes)
+            if name in ("strip", "lstrip"):
+                while codes and I_.ctx.branch(code_in(I_, codes[0], chars)):
+                    codes.pop(0)
+            if name in ("strip", "rstrip"):
+                while codes and I_.ctx.branch(code_in(I_, codes[-1], chars)):
+                    codes.pop()
+            return CStr(codes)
+        return N(f)
+    if name == "encode":
+        def f(I_, a, k):
+            from .heap import SymArr
+            arr = SymArr("bytes", "unsigned char", [len(s.codes)], readonly=True)
+            t = z3.K(z3.IntSort(), z3.IntVal(0))
+            for i, c in enumerate(s.codes):
+                if not isinstance(c, int):
+                    if not I_.ctx.branch(c < 128):
+                        I_.throw("UnicodeEncodeError", "ordinal not in range(128)")
+                t = z3.Store(t, i, c)
+            arr.arr = t
+            return arr
+        return N(f)
+    if name == "__len__":
+        return N(lambda I_, a, k: len(s.codes))
+    if name in ("startswith", "endswith") :
+        def f(I_, a, k):
+            pre = a[0]
+            if not isinstance(pre, str):
+                raise Unsupported("startswith with symbolic prefix")
+            if len(pre) > len(s.codes):
+                return False
+            seg = s.codes[:len(pre)] if name == "startswith" else s.codes[len(s.codes) - len(pre):]
+            from .natives import conj
+            return conj([(c == ord(p)) if not isinstance(c, int) else c == ord(p) for c, p in zip(seg, pre)])
+        return N(f)
+    # anything else: fall back to the SMT string
+    return None
+
+
+def cstr_int(I, s):
+    """int(s) for a CStr: optional surrounding whitespace, optional sign, digits"""
+    codes = list(s.codes)
+    while codes and I.ctx.branch(code_in(I, codes[0], WS)):
+        codes.pop(0)
+    while codes and I.ctx.branch(code_in(I, codes[-1], WS)):
+        codes.pop()
+    neg = False
+    if codes and I.ctx.branch(code_in(I, codes[0], "+-")):
+        neg = codes[0] == ord("-") if isinstance(codes[0], int) else I.ctx.branch(codes[0] == ord("-"))
+        codes.pop(0)
+    if not codes:
+        I.throw("ValueError", "invalid literal for int()")
+    val = 0
+    for c in codes:
+        isd = (48 <= c <= 57) if isinstance(c, int) else simp(z3.And(c >= 48, c <= 57))
+        if not I.ctx.branch(isd):
+            I.throw("ValueError", "invalid literal for int()")
+        val = val * 10 + (c - 48)
+    I.ctx.trusted.add("int(str) on fixed-length strings: [ws][+-]ASCII digits[ws]; '_' separators and non-ASCII digits are rejected by the model (CPython accepts them)")
+    return simp(-val) if neg else simp(val) if not isinstance(val, int) else (-val if neg else val)
+
+
 def _conc(v):
     return isinstance(v, (str, int, bool)) or v is None
 
@@ -25,6 +126,12 @@ def str_method(I, s, name):
 
     def N(fn):
         return Native("str." + name, fn)
+
+    if isinstance(s, CStr):
+        m = cstr_method(I, s, name)
+        if m is not None:
+            return m
+        s = s.to_z3()
 
     if isinstance(s, str):
         def conc_call(I_, a, k):
@@ -157,6 +264,18 @@ def _unsup(m):
 def str_getitem(I, s, idx):
     from .heap import SliceObj
     from .natives import slice_indices, norm_index
+    if isinstance(s, CStr):
+        if isinstance(idx, SliceObj):
+            a, b, c = (I.unC(x) for x in (idx.start, idx.stop, idx.step))
+            if all(x is None or isinstance(x, int) for x in (a, b, c)):
+                return CStr(s.codes[slice(a, b, c)])
+        else:
+            i = I.unC(idx)
+            if isinstance(i, int):
+                if not (-len(s.codes) <= i < len(s.codes)):
+                    I.throw("IndexError", "string index out of range")
+                return CStr([s.codes[i]])
+        s = s.to_z3()
     if isinstance(s, str):
         if isinstance(idx, SliceObj):
             a, b, c = (I.unC(x) for x in (idx.start, idx.stop, idx.step))
@@ -189,6 +308,8 @@ def int_of_str(I, s, base=10):
     claim and listed in the trusted base)"""
     if base != 10:
         raise Unsupported("int() with base != 10")
+    if isinstance(s, CStr):
+        return cstr_int(I, s)
     if isinstance(s, str):
         try:
             return int(s)
